@@ -61,6 +61,83 @@ func (e *Exec) resolveCallee(f *Frame, c *ssa.CallCommon) (*Closure, []Value) {
 	return clo, args
 }
 
+// formatMethod: the Error (preferred) or String method of the first operand in a variadic
+// []interface{} that has one, with its receiver.
+// formatVerbs returns the verb letter consuming each successive operand of a format string ('?' for
+// operands used as width/precision or when explicit argument indexes make the mapping unclear).
+func formatVerbs(f string) string {
+	out := []byte{}
+	for i := 0; i < len(f); i++ {
+		if f[i] != '%' {
+			continue
+		}
+		i++
+		for i < len(f) && strings.IndexByte("#0+- ", f[i]) >= 0 {
+			i++
+		}
+		if i < len(f) && f[i] == '[' {
+			return strings.Repeat("?", 64)
+		}
+		for i < len(f) && (f[i] >= '0' && f[i] <= '9' || f[i] == '*') {
+			if f[i] == '*' {
+				out = append(out, '?')
+			}
+			i++
+		}
+		if i < len(f) && f[i] == '.' {
+			i++
+			for i < len(f) && (f[i] >= '0' && f[i] <= '9' || f[i] == '*') {
+				if f[i] == '*' {
+					out = append(out, '?')
+				}
+				i++
+			}
+		}
+		if i < len(f) && f[i] != '%' {
+			out = append(out, f[i])
+		}
+	}
+	return string(out)
+}
+
+// formatMethod (continued): verbs gives the verb per operand (all = every operand is formatted like %v).
+func (e *Exec) formatMethod(variadic Value, verbs string, all bool) (*ssa.Function, Value) {
+	args, ok := variadic.(Slice)
+	if !ok {
+		return nil, nil
+	}
+	for i := 0; i < args.Len; i++ {
+		// fmt consults Error/String only for the verbs that are valid for strings
+		if !all && (i >= len(verbs) || strings.IndexByte("vsqxX", verbs[i]) < 0) {
+			continue
+		}
+		iv, ok := e.sliceElem(args, i).(Iface)
+		if !ok || iv.T == nil {
+			continue
+		}
+		if _, isR := iv.V.(*RType); isR {
+			continue
+		}
+		for _, name := range []string{"Error", "String"} {
+			ms := e.Prog.MethodSets.MethodSet(iv.T)
+			for j := 0; j < ms.Len(); j++ {
+				sel := ms.At(j)
+				if sel.Obj().Name() != name {
+					continue
+				}
+				sig, ok := sel.Type().(*types.Signature)
+				if !ok || sig.Params().Len() != 0 || sig.Results().Len() != 1 || !types.Identical(sig.Results().At(0).Type(), types.Typ[types.String]) {
+					continue
+				}
+				if m := e.Prog.MethodValue(sel); m != nil && m.Blocks != nil && m.Pkg != nil && e.World.InitPkgs[m.Pkg.Pkg.Path()] {
+					return m, iv.V // methods of the library's own types only (foreign ones are not interpreted here)
+				}
+			}
+		}
+	}
+	return nil, nil
+}
+
 func (e *Exec) doCall(t *Thread, f *Frame, x *ssa.Call, granted bool) stepRes {
 	clo, args := e.resolveCallee(f, x.Common())
 	return e.invoke(t, f, clo, args, x, retNormal, granted, nil)
@@ -114,6 +191,36 @@ func (e *Exec) invoke(t *Thread, f *Frame, clo *Closure, args []Value, call *ssa
 	if r := e.redirect(clo.Fn); r != nil {
 		e.Stats.Stubs[fnName(clo.Fn)+" -> "+r.Name()] = true
 		clo = &Closure{Fn: r}
+	}
+	if n := fnName(clo.Fn); n == "fmt.Errorf" || n == "fmt.Sprintf" || n == "fmt.Sprint" || n == "fmt.Sprintln" {
+		// the text stays opaque (or a modelled decimal rendering), but formatting calls the Error / String
+		// method of an operand that has one - a method that formats its own receiver again recurses forever
+		if s, ok := e.stubFor(clo.Fn); ok {
+			res, _ := s(e, t, args, granted)
+			verbs := ""
+			if n == "fmt.Errorf" || n == "fmt.Sprintf" {
+				fs, ok := "", false
+				if f, isStr := args[0].(*Str); isStr {
+					fs, ok = e.concreteStr(f)
+				}
+				if !ok {
+					return finish(res)
+				}
+				verbs = formatVerbs(fs)
+			}
+			if m, recv := e.formatMethod(args[len(args)-1], verbs, n == "fmt.Sprint" || n == "fmt.Sprintln"); m != nil {
+				e.Stats.Stubs[n] = true
+				var cv ssa.Value
+				if call != nil {
+					cv = call
+				}
+				nf := e.pushCall(t, &Closure{Fn: m}, []Value{recv}, cv, rk)
+				nf.retVal, nf.hasRetVal = res, true
+				return stCont
+			}
+			e.Stats.Stubs[n] = true
+			return finish(res)
+		}
 	}
 	if fnName(clo.Fn) == "(*sync.Pool).Get" {
 		// model: the item put back last is handed out again (maximal reuse: aliasing bugs show);
